@@ -1,6 +1,8 @@
 import BctVerif.Lemmas.ClusterCore
 /-!
 # Reductions between the variants (weighted → binary on 0/1 input, directed → undirected on symmetric input)
+
+Generic part over any linearly ordered field (used at ℚ and ℝ), then the vector-level equalities of the ℚ model.
 -/
 namespace Bct.Cluster
 open Finset Bct
@@ -10,90 +12,64 @@ variable {n : ℕ}
 theorem vec_ext {α} {v w : Vector α n} (h : ∀ i : Fin n, v[i] = w[i]) : v = w :=
   Vector.ext fun i hi => h ⟨i, hi⟩
 
-theorem degS_symm {A : AMat ℚ n} (hS : Symm A) (i : Fin n) : degS A i = 2 * ∑ j, A.get i j := by
+section Generic
+variable {K : Type} [Field K] [LinearOrder K] [IsStrictOrderedRing K]
+
+theorem degS_symm {A : AMat K n} (hS : Symm A) (i : Fin n) : degS A i = 2 * ∑ j, A.get i j := by
   unfold degS; rw [Finset.mul_sum]
   exact Finset.sum_congr rfl (fun j _ => by rw [← hS i j]; ring)
 
-theorem triS_symm {R : AMat ℚ n} (hS : Symm R) (i : Fin n) : triS R i = 8 * tri R i := by
+theorem triS_symm {R : AMat K n} (hS : Symm R) (i : Fin n) : triS R i = 8 * tri R i := by
   unfold triS tri; rw [Finset.mul_sum]
   refine Finset.sum_congr rfl (fun j _ => ?_)
   rw [Finset.mul_sum]
   refine Finset.sum_congr rfl (fun k _ => ?_)
   rw [← hS i j, ← hS j k, ← hS k i]; ring
 
-theorem pairsS_symm_bin {A : AMat ℚ n} (hB : Bin A) (hS : Symm A) (i : Fin n) :
+theorem pairsS_symm_bin {A : AMat K n} (hB : Bin A) (hS : Symm A) (i : Fin n) :
     pairsS A i = 4 * ((∑ j, A.get i j) * ((∑ j, A.get i j) - 1)) := by
   unfold pairsS
   have h2 : ∑ j, A.get i j * A.get j i = ∑ j, A.get i j :=
     Finset.sum_congr rfl (fun j _ => by rw [← hS i j, bin_sq hB])
   rw [degS_symm hS, h2]; ring
 
-theorem pairsS_adj_symm {W : AMat ℚ n} (hS : Symm W) (i : Fin n) :
-    pairsS (adj W) i = 4 * (deg W i * (deg W i - 1)) := by
+theorem pairsS_adj_symm {W : AMat K n} (hS : Symm W) (i : Fin n) :
+    pairsS (adjK W) i = 4 * (deg W i * (deg W i - 1)) := by
   rw [pairsS_symm_bin (adj_bin W) (adj_symm hS)]
-  simp only [adj_get, deg]
+  simp only [adjK_get, deg]
 
-/-- `wd_eq_wu_symm` -/
-theorem wd_eq_wu_symm {W R : AMat ℚ n} (hS : Symm W) (hRS : Symm R) : ccWd W R = ccWu W R := by
-  refine vec_ext (fun i => ?_)
-  rw [ccWd, ccFagiolo_get, ccWu_get, triS_symm hRS, pairsS_adj_symm hS]
+/-- directed = undirected on symmetric input, node level: needs only `Symm W` and `Symm R` (no cube-root hypothesis) -/
+theorem ccFagK_symm {W R : AMat K n} (hS : Symm W) (hRS : Symm R) (i : Fin n) :
+    ccFagK (adjK W) R i = ccWuK W R i := by
+  rw [ccFagK, ccWuK, triS_symm hRS, pairsS_adj_symm hS]
   have : 8 * tri R i / 2 = 4 * tri R i := by ring
   rw [this]; exact perNode_scale (by norm_num)
 
-theorem wd_eq_bd_on01 {W : AMat ℚ n} (hB : Bin W) : ccWd W W = ccBd W := by
-  rw [ccWd, adj_of_bin hB]; rfl
+theorem transFagK_symm {W R : AMat K n} (hS : Symm W) (hRS : Symm R) :
+    transFagK (adjK W) R = transWuK W R := by
+  rw [transFagK, transWuK]
+  have h1 : ∑ i, triS R i / 2 = 4 * ∑ i, tri R i := by
+    rw [Finset.mul_sum]; exact Finset.sum_congr rfl (fun i _ => by rw [triS_symm hRS]; ring)
+  have h2 : ∑ i, pairsS (adjK W) i = 4 * ∑ i, deg W i * (deg W i - 1) := by
+    rw [Finset.mul_sum]; exact Finset.sum_congr rfl (fun i _ => pairsS_adj_symm hS i)
+  rw [h1, h2]; exact gdiv_scale (by norm_num)
 
-/-- on a 0/1 symmetric matrix the list code of `clustering_coef_bu` counts closed triples -/
-theorem ccBu_bin_symm {G : AMat ℚ n} (hB : Bin G) (hS : Symm G) (u : Fin n) :
-    (ccBu G)[u] = some (if (2:ℚ) ≤ deg G u then tri G u / (deg G u * (deg G u - 1)) else 0) := by
-  rw [ccBu_get]
-  have : (∑ a, ∑ b, ind (G.get u a) * (ind (G.get u b) * G.get a b)) = tri G u := by
-    unfold tri
-    refine Finset.sum_congr rfl (fun a _ => Finset.sum_congr rfl (fun b _ => ?_))
-    rw [ind_of_bin (hB u a), ind_of_bin (hB u b), hS b u]; ring
-  rw [this]
-  have h2 : deg G u * deg G u - deg G u = deg G u * (deg G u - 1) := by ring
-  rw [h2]
-
-theorem perNode_eq_bu {t d : ℚ} (h : t ≠ 0 → 2 ≤ d) :
-    perNode t (d * (d - 1)) = some (if (2:ℚ) ≤ d then t / (d * (d - 1)) else 0) := by
+theorem perNode_eq_bu {t d : K} (h : t ≠ 0 → 2 ≤ d) :
+    perNodeK t (d * (d - 1)) = some (if (2:K) ≤ d then t / (d * (d - 1)) else 0) := by
   by_cases ht : t = 0
-  · subst ht; simp [perNode]
+  · subst ht; simp [perNodeK]
   · have hd := h ht
     have : d * (d - 1) ≠ 0 := ne_of_gt (by nlinarith)
     rw [perNode_of_ne ht this, if_pos hd]
 
-theorem tri_ne_zero_deg {W R : AMat ℚ n} (hS : Symm W) (hD : EmptyDiag W) (hR : IsCbrt R W) {i : Fin n}
+theorem tri_ne_zero_deg {W R : AMat K n} (hS : Symm W) (hD : EmptyDiag W) (hR : IsCbrt R W) {i : Fin n}
     (h : tri R i ≠ 0) : 2 ≤ deg W i := by
   obtain ⟨j, k, hjk, h1, -, h3⟩ := tri_ne_zero (isCbrt_emptyDiag hR hD) h
   refine deg_ge_two hjk (fun h0 => h1 ((isCbrt_zero_iff hR i j).mpr h0)) (fun h0 => h3 ?_)
   exact (isCbrt_zero_iff hR k i).mpr (by rw [← hS i k]; exact h0)
 
-/-- `wu_eq_bu_on01` -/
-theorem wu_eq_bu_on01 {W : AMat ℚ n} (hB : Bin W) (hS : Symm W) (hD : EmptyDiag W) : ccWu W W = ccBu W := by
-  refine vec_ext (fun i => ?_)
-  rw [ccWu_get, ccBu_bin_symm hB hS]
-  exact perNode_eq_bu (fun h => tri_ne_zero_deg hS hD (isCbrt_of_bin hB) h)
-
-/-- `bd_eq_bu_symm` -/
-theorem bd_eq_bu_symm {A : AMat ℚ n} (hB : Bin A) (hS : Symm A) (hD : EmptyDiag A) : ccBd A = ccBu A := by
-  rw [← wd_eq_bd_on01 hB, wd_eq_wu_symm hS hS, wu_eq_bu_on01 hB hS hD]
-
-/-! ### transitivity -/
-
-theorem trans_wd_eq_bd_on01 {W : AMat ℚ n} (hB : Bin W) : transWd W W = transBd W := by
-  rw [transWd, adj_of_bin hB]; rfl
-
-theorem trans_wd_eq_wu_symm {W R : AMat ℚ n} (hS : Symm W) (hRS : Symm R) : transWd W R = transWu W R := by
-  rw [transWd, transFagiolo_eq, transWu_eq]
-  have h1 : ∑ i, triS R i / 2 = 4 * ∑ i, tri R i := by
-    rw [Finset.mul_sum]; exact Finset.sum_congr rfl (fun i _ => by rw [triS_symm hRS]; ring)
-  have h2 : ∑ i, pairsS (adj W) i = 4 * ∑ i, deg W i * (deg W i - 1) := by
-    rw [Finset.mul_sum]; exact Finset.sum_congr rfl (fun i _ => pairsS_adj_symm hS i)
-  rw [h1, h2]; exact gdiv_scale (by norm_num)
-
 /-- `Σ_{i,j} (A²)_ij - tr(A²) = Σ_i k_i (k_i - 1)` for a 0/1 symmetric matrix -/
-theorem triples_bin_symm {A : AMat ℚ n} (hB : Bin A) (hS : Symm A) :
+theorem triples_bin_symm {A : AMat K n} (hB : Bin A) (hS : Symm A) :
     (∑ i, ∑ j, ∑ k, A.get i k * A.get k j) - ∑ i, ∑ k, A.get i k * A.get k i
       = ∑ i, deg A i * (deg A i - 1) := by
   have e1 : ∑ i, ∑ j, ∑ k, A.get i k * A.get k j = ∑ k, deg A k * deg A k := by
@@ -112,8 +88,47 @@ theorem triples_bin_symm {A : AMat ℚ n} (hB : Bin A) (hS : Symm A) :
   rw [e1, e2, ← Finset.sum_sub_distrib]
   exact Finset.sum_congr rfl (fun i _ => by ring)
 
+end Generic
+
+/-! ### the ℚ model -/
+
+/-- `wd_eq_wu_symm`: any symmetric `W`, any symmetric `R` -/
+theorem wd_eq_wu_symm {W R : AMat ℚ n} (hS : Symm W) (hRS : Symm R) : ccWd W R = ccWu W R :=
+  vec_ext fun i => by rw [ccWd_get, ccWu_get, ccFagK_symm hS hRS]
+
+theorem wd_eq_bd_on01 {W : AMat ℚ n} (hB : Bin W) : ccWd W W = ccBd W := by
+  rw [ccWd, adj_eq, adj_of_bin hB]; rfl
+
+/-- on a 0/1 symmetric matrix the list code of `clustering_coef_bu` counts closed triples -/
+theorem ccBu_bin_symm {G : AMat ℚ n} (hB : Bin G) (hS : Symm G) (u : Fin n) :
+    (ccBu G)[u] = some (if (2:ℚ) ≤ deg G u then tri G u / (deg G u * (deg G u - 1)) else 0) := by
+  rw [ccBu_get]
+  have : (∑ a, ∑ b, indK (G.get u a) * (indK (G.get u b) * G.get a b)) = tri G u := by
+    unfold tri
+    refine Finset.sum_congr rfl (fun a _ => Finset.sum_congr rfl (fun b _ => ?_))
+    rw [ind_of_bin (hB u a), ind_of_bin (hB u b), hS b u]; ring
+  rw [this]
+  have h2 : deg G u * deg G u - deg G u = deg G u * (deg G u - 1) := by ring
+  rw [h2]
+
+/-- `wu_eq_bu_on01` -/
+theorem wu_eq_bu_on01 {W : AMat ℚ n} (hB : Bin W) (hS : Symm W) (hD : EmptyDiag W) : ccWu W W = ccBu W := by
+  refine vec_ext (fun i => ?_)
+  rw [ccWu_get, ccBu_bin_symm hB hS, ccWuK]
+  exact perNode_eq_bu (fun h => tri_ne_zero_deg hS hD (isCbrt_of_bin hB) h)
+
+/-- `bd_eq_bu_symm` -/
+theorem bd_eq_bu_symm {A : AMat ℚ n} (hB : Bin A) (hS : Symm A) (hD : EmptyDiag A) : ccBd A = ccBu A := by
+  rw [← wd_eq_bd_on01 hB, wd_eq_wu_symm hS hS, wu_eq_bu_on01 hB hS hD]
+
+theorem trans_wd_eq_bd_on01 {W : AMat ℚ n} (hB : Bin W) : transWd W W = transBd W := by
+  rw [transWd, adj_eq, adj_of_bin hB]; rfl
+
+theorem trans_wd_eq_wu_symm {W R : AMat ℚ n} (hS : Symm W) (hRS : Symm R) : transWd W R = transWu W R := by
+  rw [transWd_eq, transWu_eq, transFagK_symm hS hRS]
+
 theorem trans_wu_eq_bu_on01 {W : AMat ℚ n} (hB : Bin W) (hS : Symm W) : transWu W W = transBu W := by
-  rw [transWu_eq, transBu_eq, triples_bin_symm hB hS]
+  rw [transWu_eq, transBu_eq, triples_bin_symm hB hS, transWuK]
 
 theorem trans_bd_eq_bu_symm {A : AMat ℚ n} (hB : Bin A) (hS : Symm A) : transBd A = transBu A := by
   rw [← trans_wd_eq_bd_on01 hB, trans_wd_eq_wu_symm hS hS, trans_wu_eq_bu_on01 hB hS]
@@ -121,10 +136,10 @@ theorem trans_bd_eq_bu_symm {A : AMat ℚ n} (hB : Bin A) (hS : Symm A) : transB
 /-! ### degrees and strengths -/
 
 theorem strengthsUnd_eq_degreesUnd_on01 {W : AMat ℚ n} (hB : Bin W) : strengthsUnd W = degreesUnd W := by
-  rw [degreesUnd, adj_of_bin hB]; rfl
+  rw [degreesUnd, adj_eq, adj_of_bin hB]; rfl
 
 theorem strengthsDir_eq_degreesTot_on01 {W : AMat ℚ n} (hB : Bin W) : strengthsDir W = degreesTot W := by
-  rw [degreesTot, adj_of_bin hB]; rfl
+  rw [degreesTot, adj_eq, adj_of_bin hB]; rfl
 
 theorem rowSum_eq_colSum_symm {A : AMat ℚ n} (hS : Symm A) (i : Fin n) : rowSum A i = colSum A i := by
   rw [rowSum_eq, colSum_eq]; exact Finset.sum_congr rfl (fun j _ => hS i j)
@@ -134,11 +149,11 @@ theorem degreesIn_eq_und (W : AMat ℚ n) : degreesIn W = degreesUnd W := rfl
 theorem degreesOut_eq_und_symm {W : AMat ℚ n} (hS : Symm W) : degreesOut W = degreesUnd W := by
   refine vec_ext (fun i => ?_)
   simp only [degreesOut, degreesUnd, get_ofFn_vec]
-  exact rowSum_eq_colSum_symm (adj_symm hS) i
+  rw [adj_eq]; exact rowSum_eq_colSum_symm (adj_symm hS) i
 
-theorem adj_adj (W : AMat ℚ n) : adj (adj W) = adj W := adj_of_bin (adj_bin W)
+theorem adj_adj_q (W : AMat ℚ n) : adj (adj W) = adj W := by rw [adj_eq, adj_eq, adj_adj]
 
 theorem degreesUnd_binarize (W : AMat ℚ n) : degreesUnd (adj W) = degreesUnd W := by
-  rw [degreesUnd, adj_adj]; rfl
+  rw [degreesUnd, adj_adj_q]; rfl
 
 end Bct.Cluster
